@@ -17,6 +17,7 @@ zero-extended registers and compared with miasm's 32-bit lifter on the low 32
 bits (DESIGN.md C18).
 """
 import os
+import re
 
 from vf import common
 
@@ -362,6 +363,13 @@ def _one_case(X, rec, mode, be, code, st, info, name, mtxt, src, otxt, nat, seen
         rec.count("tzcnt_lzcnt_decoded_as_rep_bsf_bsr")
         rec.fail("%d %s decoded as REP %s" % (mode, cmn.upper(), name),
                  "%s: the processor executes %s, miasm lifts %s" % (otxt, cmn, mtxt), witness())
+        return
+    if re.match(r'^cmp(eq|lt|le|unord|neq|nlt|nle|ord)(ps|pd|ss|sd)$', info['mn']) and \
+            re.match(r'^CMP(EQ|LT|LE|UNORD|NEQ|NLT|NLE|ORD)(PS|PD|SS|SD)$', name) and name.lower() != info['mn']:
+        # same bytes, another comparison predicate than the reference disassembler (and the processor)
+        rec.count("sse_compare_predicate_misdecoded")
+        rec.fail("%d %s decoded with another predicate" % (mode, kname),
+                 "%s: miasm decodes %s" % (otxt, mtxt), witness())
         return
     if mo.startswith('unsupported') or mo.startswith('raised:'):
         if mo.startswith('raised:') and mo not in ('raised:NotImplementedError', 'raised:KeyError'):
